@@ -6,5 +6,6 @@ import "verifharness/vh"
 func main() {
 	vh.Main(map[string]vh.Mode{
 		"c09": c09,
+		"c43": c43,
 	})
 }
